@@ -201,6 +201,10 @@ func max64(a, b int64) int64 {
 // contributes nothing, only the global minimum remains.
 func (c Config) MinDepositFor(base int64) int64 {
 	m := base * c.Multiple
+	if base > 0 && c.Multiple > 0 && (m/c.Multiple != base || m < 0) {
+		// beyond int64: more than any account of the harness world can hold
+		m = 1<<63 - 1
+	}
 	if c.MinDeposit != nil && *c.MinDeposit > m {
 		m = *c.MinDeposit
 	}
